@@ -420,7 +420,33 @@ def scale_stage(res, rng):
                     break
 
 
+def sparse_scale_stage(res, rng):
+    """the sparse cosine surrogate is scale free as well"""
+    from pynndescent import sparse as S
+    from harness import refmetrics as R
+    alt = S.sparse_fast_distance_alternatives["cosine"]
+    for c in range(12):
+        dim = int(rng.integers(3, 10))
+        x = (np.abs(rng.standard_normal(dim)) + 0.1) * (rng.random(dim) < 0.8); y = (np.abs(rng.standard_normal(dim)) + 0.1) * (rng.random(dim) < 0.8)
+        x[0] = 1.0; y[0] = 0.5
+        x = x.astype(np.float32); y = y.astype(np.float32)
+
+        def enc(v):
+            ind = np.nonzero(v)[0].astype(np.int32)
+            return ind, v[ind].astype(np.float32)
+        base = float(alt["correction"](np.float32(alt["dist"](*enc(x), *enc(y)))))
+        for sc in (2.0 ** -50, 2.0 ** -40, 2.0 ** -20, 2.0 ** 20, 2.0 ** 35, 2.0 ** 50):
+            xs = (x * np.float32(sc)).astype(np.float32); ys = (y * np.float32(sc)).astype(np.float32)
+            v = float(alt["correction"](np.float32(alt["dist"](*enc(xs), *enc(ys)))))
+            res.case(("sparse-scale", sc, x.tobytes(), y.tobytes()), True); res.count("sparse_scale_cases")
+            if not R.close(v, base, "cosine", scale=4.0):
+                res.violation("surrogate:sparse:cosine:scale", "correction(surrogate(s*x, s*y)) = %r at s = %g but %r at s = 1" % (v, sc, base),
+                              {"metric": "cosine", "x": x.tolist(), "y": y.tolist(), "scale": sc})
+                break
+
+
 def run(res, tier, seed, search):
+    sparse_scale_stage(res, np.random.default_rng([seed, 911]))
     api_stage(res, np.random.default_rng([seed, 909]), tier)
     scale_stage(res, np.random.default_rng([seed, 910]))
     from harness import c07_model
